@@ -101,4 +101,14 @@ func SelftestModels() {
 	}
 	zz.Par(inc, inc)
 	zz.Observe("par", cnt, acnt)
+	// the rest of sync/atomic
+	var av atomic.Value
+	av.Store("first")
+	s0, _ := av.Load().(string)
+	okCAS := atomic.CompareAndSwapInt64(&acnt, 4, 10)
+	noCAS := atomic.CompareAndSwapInt64(&acnt, 4, 11)
+	old := atomic.SwapInt64(&acnt, 12)
+	var u32 uint32
+	atomic.StoreUint32(&u32, uint32(x))
+	zz.Observe("atomic", s0, okCAS, noCAS, old, acnt, atomic.LoadUint32(&u32))
 }
